@@ -54,8 +54,22 @@ def run(ctx):
     # (d) cross-process, hash seeds
     jobs = []
     for sim in CONT:
-        for k_ in range(ctx.scale(16, 48)):
-            c = allsims.gen_case(ctx.rng, sim, nmax=8)
+        generic = sim == "Gillespie_simple_contagion"
+        for k_ in range(ctx.scale(48 if generic else 16, 160 if generic else 48)):
+            c = allsims.gen_case(ctx.rng, sim, nmax=10 if generic else 8)
+            if generic and k_ % 2 == 0:
+                # directed contact graph with many two-way and converging edges: the order in which the edges at a
+                # changing node are re-filed must not be a hash order of (string, string) tuples
+                while not (c.get("directed") and len(c["edges"]) >= 2 * c["n"]):
+                    c = allsims.gen_case(ctx.rng, sim, nmax=10)
+                    c["directed"] = True
+                    n_ = c["n"]
+                    c["edges"] = [[u, v] for u in range(n_) for v in range(n_) if u != v and ctx.rng.random() < 0.55]
+                    c["edgew"] = [str(ctx.rng.choice([1, 2])) for _ in c["edges"]]
+                    c["edgew_rev"] = list(c["edgew"])
+                    if n_ < 4:
+                        c["directed"] = False
+                c["tmax"] = str(F(c["tmin"]) + 8)
             if k_ % 2 == 0 and sim in ("Gillespie_SIR", "fast_SIR", "fast_nonMarkov_SIR", "Gillespie_SIS", "fast_SIS", "fast_nonMarkov_SIS") and c["n"] >= 5:
                 # several string-named initial infecteds (+ initially recovered nodes for SIR): the order in which they
                 # enter the candidate structures must be the caller's, not a hash order
